@@ -912,6 +912,26 @@ def probe_f1(c, clause="tone"):
         return None
 
 
+def report_f1(ctx, f1_seen, probe, pid):
+    """Plans with the F1 signature were set aside.  F1 is only produced for phase_response != 50: a LINEAR-phase plan with a
+    misaligned power-of-two-L dft stage is not the known finding - every such member is probed and a misbehaviour is a violation with
+    the probe as the failing input.  Non-linear members: up to 4 are probed, KNOWN-FINDING when the misbehaviour shows."""
+    lin = [r for r in f1_seen if r.get("f1_linear")]
+    non = [r for r in f1_seen if not r.get("f1_linear")][:4]
+    ctx.count("f1_signature_configurations_set_aside", len(f1_seen))
+    ctx.count("f1_signature_with_linear_phase", len(lin))
+    res = pool_map(probe, [r["cfg"] for r in lin[:12] + non])
+    for r, txt in zip(lin[:12] + non, res):
+        if not txt:
+            continue
+        if r.get("f1_linear") or "F1" not in ACTIVE:
+            ctx.violation("%s: a dft stage with power-of-two L whose block length is not a multiple of L, with LINEAR phase (not the signature of known finding F1) "
+                          "or F1 no longer listed as known: %s" % (pid, txt), {"config": r["cfg"], "probe": txt,
+                          "replay": "harness/signal/run.c " + " ".join(cfg_args(r["cfg"])) + "  < in-band sine / constant 1.0 (float64)"})
+        else:
+            ctx.known("F1", txt)
+
+
 def job_rows_first(args):
     """args = (members, max_phases, max_cost): the first member whose rows fit the phase / cost caps."""
     r = None
@@ -931,7 +951,7 @@ def job_rows(args):
         if "error" not in info0 and info0.get("engine", "").startswith("cr") and f1_exact(info0):
             # F1 also over-delivers and can crash at flush (DESIGN section 6): no signal is sent through such a plan here
             return {"cfg": c, "label": cfg_label(c), "skipped": "known finding F1 signature (dft stage with power-of-two L not dividing block_len)",
-                    "plan": plan_signature(info0), "f1": True}
+                    "plan": plan_signature(info0), "f1": True, "f1_linear": info0["q"]["phase"] == 50}
         R = measure_rows(c, max_phases, max_cost)
         if isinstance(R, dict):
             d = {"cfg": c, "label": cfg_label(c), "skipped": R["skipped"]}
@@ -960,7 +980,7 @@ def job_tone(args):
         if not info.get("engine", "").startswith("cr") or bits_of(info) < 15:
             return {"cfg": c, "label": cfg_label(c), "skipped": "property does not speak (precision < 15 bits)"}
         if f1_exact(info):
-            return {"cfg": c, "label": cfg_label(c), "skipped": "known finding F1 signature", "f1": True}
+            return {"cfg": c, "label": cfg_label(c), "skipped": "known finding F1 signature", "f1": True, "f1_linear": info["q"]["phase"] == 50}
         d = tone_job(c, **kw)
         d.update(cfg=c, label=cfg_label(c), kw=kw, class_db=gain_class_db(info), pb=info["q"]["pb"], sb=info["q"]["sb"],
                  pclass=plan_class(info), flags=finding_flags(info))
